@@ -162,7 +162,16 @@ def dict_store(m: Any, cell: Any, k: V, v: V) -> None:
     if "keys" in cell.extra:
         keys: VSeq = cell.extra["keys"]
         present = z3.Not(ms.opt.is_none(z3.Select(cell.value.term, kt)))
-        cell.extra["keys"] = VSeq(z3.If(present, keys.term, mk_snoc(keys.term, kt)), keys.sort)
+        sp = z3.simplify(present)
+        if z3.is_true(sp):
+            pass
+        elif z3.is_false(sp) or (not m.spec and not m.ctx.branch(present)):
+            # a new key goes to the end of the insertion order (a path split keeps the key list a syntactic snoc)
+            t = mk_snoc(keys.term, kt)
+            m.ctx.bank.add(t, ("snoc", keys.term, kt))
+            cell.extra["keys"] = VSeq(t, keys.sort)
+        elif m.spec:
+            cell.extra["keys"] = VSeq(z3.If(present, keys.term, mk_snoc(keys.term, kt)), keys.sort)
     cell.value = VMap(z3.Store(cell.value.term, kt, ms.opt.some(v).term), ms)
 
 
@@ -211,7 +220,19 @@ def dict_keys(m: Any, cell: Any) -> VSeq:
 
 
 def dict_items_stream(m: Any, cell: Any) -> dict:
-    raise EngineError("dict.items() iteration (needs an area hook)")
+    """for k, v in d.items(): iterate the insertion-ordered key list; v is the value stored under k.
+    Needs the ordered model (ODict); that every listed key is present is the area's data-structure invariant."""
+    if "keys" not in cell.extra:
+        raise EngineError("dict.items() iteration over an unordered dict model")
+    a = m.ctx.alloc("iter", cell.extra["keys"])
+    mp = cell.value
+    ms: MapSort = mp.sort
+
+    def shape(items: list, dones: list) -> V:
+        from .values import VTuple
+        k = items[0]
+        return VTuple([k, ms.val.wrap(ms.opt.val(z3.Select(mp.term, ms.key.coerce(k).term)))])
+    return {"cells": [(a, True)], "shape": shape}
 
 
 def dict_method(m: Any, cell: Any, name: str, args: list[V], kwargs: dict[str, V]) -> V:
